@@ -497,6 +497,7 @@ def make_dataset(ex, name, env, owner="caller", **kw):
         if isinstance(data, Arr):
             data.ghost.setdefault("owner", owner)
         da = make_dataarray(ex, f"{name}.{vname}", data=data)
+        da.ghost["owner"] = owner
         da.fields["attrs"] = SymDict(f"{name}.{vname}.attrs", closed=False, owner=owner)
         ds.fields["vars"].entries[vname] = [True, da]
     return ds
@@ -598,3 +599,34 @@ def _make_full_tree(cls):
 FACTORIES_TREES = {}
 for _cls in ("BallTree", "KDTree"):
     factory(_cls)(_make_full_tree(_cls))
+
+
+# ---------------------------------------------------------------------------------------------
+# xarray.DataArray: .max() / .data setter (used by _set_desired_longitude_range)
+# ---------------------------------------------------------------------------------------------
+def _da_max(ex, obj, args, kwargs, node, env, fr):
+    a = obj.fields.get("data")
+    if not isinstance(a, Arr) or a.rank != 1 or a.kind != "real":
+        raise Unsupported(".max() of something else than a 1-D real variable")
+    trusted(ex, "DataArray.max(): an upper bound of all entries that is attained (non-empty array)")
+    m = z3.Real(fresh_name("max"))
+    i = z3.Int(fresh_name("i"))
+    w = z3.Int(fresh_name("argmax"))
+    n = to_z3(a.shape[0], "int")
+    ex.assume(z3.ForAll([i], z3.Implies(z3.And(i >= 0, i < n), a.sel(i) <= m), patterns=[a.sel(i)]))
+    ex.assume(z3.Implies(n > 0, z3.And(w >= 0, w < n, a.sel(w) == m)))
+    return m
+
+
+METHODS[("DataArray", "call:max")] = _da_max
+
+
+def _da_set_data(ex, base, node, env, fr):
+    def setter(v):
+        # assigning `.data` re-binds the variable of the dataset this DataArray belongs to: a store into that dataset
+        ex.frame_store(base, node, env, fr)
+        base.fields["data"] = v
+    return setter
+
+
+METHODS[("DataArray", "__setattr__:data")] = _da_set_data
